@@ -295,7 +295,7 @@ func verifH_C02_wrong_kind_in_progress() {
 	ni := verifChoose("nest", len(nests))
 	n := nests[ni]
 	// known finding: the examples of a parameter are never visited by the loader, so a wrong-kind reference there is not noticed either
-	verifKnown("C02-nested-examples-and-encoding-headers-not-resolved", ni == 5)
+
 	files := map[string]string{}
 	var comps string
 	if verifChoose("wholeFile", 2) == 1 {
